@@ -2,6 +2,7 @@ package ast
 
 import (
 	"bytes"
+	"sort"
 	"strings"
 
 	"github.com/skx/evalfilter/v2/token"
@@ -34,6 +35,9 @@ func (hl *HashLiteral) String() string {
 			pairs = append(pairs, key.String()+":"+value.String())
 		}
 	}
+	// the map is walked in random order: sort, so that the same
+	// literal always prints the same way.
+	sort.Strings(pairs)
 	out.WriteString("{")
 	out.WriteString(strings.Join(pairs, ", "))
 	out.WriteString("}")
